@@ -993,10 +993,48 @@ def rule_every_file_decoded(prog, fixture=False):
     return r
 
 
+# ---------------------------------------------------------------- R-C09-8
+def rule_success_only_at_end(prog, fixture=False):
+    r = RuleResult("R-C09-8", "a program reader (a function that reads input and calls the line decoder) returns "
+                   "success only where the input has ended (a dominating `== EOF` fact; whether that end is clean is "
+                   "R-C09-1's business) or the end-of-program marker was consumed (a successful expect_char): no "
+                   "ordinary line can make the listing stop early with exit status 0", floor=0 if fixture else 4)
+    falsefns = _always_false_functions(prog)
+    for fn in _input_functions(prog):
+        if not any(_callee(n) in DECODERS for n in fn.walk()):
+            continue
+        g = Guards(fn)
+        k = 0
+        for n in fn.walk():
+            if n.get("k") != "ReturnStmt" or not n.get("c"):
+                continue
+            if _is_failure_return(prog, fn, n, falsefns):
+                continue
+            e = strip_all(n["c"][0])
+            if e is not None and e.get("k") == "CallExpr" and folded(e) is None:
+                continue        # delegation: the callee's result
+            k += 1
+            key = "%s::%s::success-return#%d" % (fn.relfile(), fn.qn, k)
+            why = None
+            for l, rel, rr in (g.cmps(n) or []):
+                if rel == "==" and (folded(rr) == -1 or folded(l) == -1):
+                    why = "input has ended"
+            for a, truth in (g.truths(n) or []):
+                ca = strip_all(a)
+                if truth and ca is not None and ca.get("k") == "CallExpr" and _callee(ca) == "expect_char":
+                    why = "end marker consumed"
+            r.add(key, fn.loc(n), why is not None, why or
+                  "`%s` reports success although neither the end of the input nor the end-of-program marker has been "
+                  "seen on this path: a well-formed program whose bytes happen to satisfy the condition is cut short "
+                  "silently" % show(n))
+    return r
+
+
 def run(ctx):
     prog = ctx.prog("basic", "N")
     return [rule_eof_before_use(prog), rule_short_fread(prog), rule_static_state(prog),
-            rule_failures_propagate(prog), rule_table_contradiction(prog), rule_extension_needs_byte(prog), rule_every_file_decoded(prog)]
+            rule_failures_propagate(prog), rule_table_contradiction(prog), rule_extension_needs_byte(prog), rule_every_file_decoded(prog),
+            rule_success_only_at_end(prog)]
 
 
 SELFTESTS = [
